@@ -82,7 +82,8 @@ fn grid_ranges(grid: i32) -> Vec<Range<f64>> {
 
 fn grid_boxes(gx: i32, gy: i32) -> Vec<(f64, f64, f64, f64)> {
     let mut boxes = vec![];
-    for x0 in 0..=gx { for x1 in x0..=gx { for y0 in 0..=gy { for y1 in y0..=gy { boxes.push((x0 as f64, x1 as f64, y0 as f64, y1 as f64)); } } } }
+    // x runs over -2 ..= gx-2: negative, zero and positive coordinates (a sentinel such as 0.0 for "nothing read yet" shows on the negative side)
+    for x0 in 0..=gx { for x1 in x0..=gx { for y0 in 0..=gy { for y1 in y0..=gy { boxes.push(((x0 - 2) as f64, (x1 - 2) as f64, y0 as f64, y1 as f64)); } } } }
     boxes
 }
 
@@ -119,21 +120,26 @@ fn sweep_lines(items: &[B], stats: &mut Stats) {
 
 fn random_ranges(rng: &mut Rng, n: usize) -> Vec<Range<f64>> {
     let snap = rng.b();
+    let shift = match rng.i(3) { 0 => 0.0, 1 => 50.0, _ => 250.0 };
     (0..n).map(|_| {
         let mut s = rng.r(0.0, 100.0);
         let mut len = match rng.i(6) { 0 => 0.0, 1 => rng.r(0.0, 1.0), _ => rng.r(0.0, 100.0) };
         if snap { s = (s / 5.0).round() * 5.0; len = (len / 5.0).round() * 5.0; }
+        let s = s - shift;
         s..(s + len)
     }).collect()
 }
 
 fn random_boxes(rng: &mut Rng, n: usize) -> Vec<B> {
     let snap = rng.b();
+    // a third of the collections straddle 0, a third lie wholly at negative x
+    let (xshift, yshift) = match rng.i(3) { 0 => (0.0, 0.0), 1 => (50.0, 20.0), _ => (250.0, 0.0) };
     let mut items: Vec<B> = (0..n).map(|_| {
         let mut v = [rng.r(0.0, 100.0), rng.r(0.0, 30.0), rng.r(0.0, 100.0), rng.r(0.0, 30.0)];
         if rng.i(5) == 0 { v[1] = 0.0; }
         if rng.i(5) == 0 { v[3] = 0.0; }
         if snap { for k in 0..4 { v[k] = (v[k] / 10.0).round() * 10.0; } }
+        v[0] -= xshift; v[2] -= yshift;
         B(0, v[0], v[0] + v[1], v[2], v[2] + v[3])
     }).collect();
     items.sort_by(|a, b| a.1.partial_cmp(&b.1).unwrap());
